@@ -39,6 +39,8 @@ type c08Scn struct {
 	Rows   [][]core.Bytes `json:"rows,omitempty"`
 	Writer string         `json:"writer,omitempty"` // print | rebuild
 	CRLF   bool           `json:"crlf,omitempty"`
+	// WarmMode: the writer Interpreter is reused: it first wrote the same rows in this other output mode ("csv"/"tsv")
+	WarmMode string `json:"warm_mode,omitempty"`
 }
 
 type c08Rec struct {
@@ -153,6 +155,9 @@ func (c08Engine) Gen(r *core.Rand, tier string, i int) any {
 		sc.Comment = ""
 		sc.Writer = core.Pick(r, []string{"print", "rebuild"})
 		sc.CRLF = r.Chance(1, 3)
+		if r.Chance(1, 4) {
+			sc.WarmMode = core.Pick(r, []string{"csv", "tsv"})
+		}
 		sep := string(c08SepRune(sc))
 		alpha := []string{"a", "b", " ", sep, sep, "\"", "\"\"", "\n", "#", "x", "", "é", "\xff", "\t", ","}
 		nrows := r.Range(1, 4)
@@ -680,7 +685,27 @@ func c08RunRoundTrip(sc *c08Scn, keep bool) core.Outcome {
 		}
 	}
 	c08cur = &c08Obs{}
-	wres := execProgram(prog, cfg)
+	var wres execResult
+	if sc.WarmMode != "" {
+		it, ierr := interp.New(prog)
+		if ierr != nil {
+			core.Fatal("C08: New: %v", ierr)
+		}
+		warm := *cfg
+		warm.Vars = nil
+		warm.Output = core.NewSimSink("warm", nil)
+		warm.OutputMode, warm.CSVOutput = c08IOMode(sc.WarmMode), interp.CSVOutputConfig{}
+		wr := guarded(func() (int, error) { return it.Execute(&warm) })
+		if wr.Panic != "" {
+			out.One(log.Hash(), true)
+			out.Fail = &core.Failure{Oracle: "panic", Detail: desc + " warm-up writer panic: " + wr.Panic}
+			return out
+		}
+		it.ResetVars()
+		wres = guarded(func() (int, error) { return it.Execute(cfg) })
+	} else {
+		wres = execProgram(prog, cfg)
+	}
 	if wres.Panic != "" {
 		out.One(log.Hash(), true)
 		out.Fail = &core.Failure{Oracle: "panic", Detail: desc + " writer panic: " + wres.Panic}
@@ -784,6 +809,9 @@ func (c08Engine) Shrink(scAny any) []any {
 	}
 	if sc.CRLF {
 		add(func(c *c08Scn) { c.CRLF = false })
+	}
+	if sc.WarmMode != "" {
+		add(func(c *c08Scn) { c.WarmMode = "" })
 	}
 	if sc.Kind == "roundtrip" {
 		for i := range sc.Rows {
